@@ -5,6 +5,7 @@ import (
 	"go/ast"
 	"go/token"
 	"go/types"
+	"path/filepath"
 	"sort"
 	"strings"
 
@@ -919,6 +920,19 @@ func (x *Exec) readGlobal(st *State, o *types.Var) Val {
 }
 
 func (x *Exec) noteTrusted(s string) { x.trusted[s] = true }
+
+// panicAllowed: the function under verification declares `maypanic <reason>`
+// and the explicit panic statement is in its own body (not in an inlined
+// callee): the path ends without an obligation, and the allowance is listed.
+func (x *Exec) panicAllowed(pos token.Pos) bool {
+	fr := x.cur()
+	if fr.fc == nil || fr.fc.MayPanic == "" || fr.fc != x.fc {
+		return false
+	}
+	p := x.eng.fset.Position(pos)
+	x.noteTrusted(fmt.Sprintf("ALLOWED panic in %s at %s:%d (its postconditions hold on normal return only; callers inherit the panic): %s", x.key, filepath.Base(p.Filename), p.Line, fr.fc.MayPanic))
+	return true
+}
 
 // aliasOf: the current name of a variable the contract knows under an older name.
 func (x *Exec) aliasOf(name string) (string, bool) {
